@@ -446,7 +446,15 @@ def same_root_cause(failure, r):
 
 
 def shrink(failure):
-    out = shrinker.shrink_failure(failure, run_case, same=same_root_cause)
+    # a case that needs 64+ components cannot get small; every test compiles the whole type again
+    wide = len(failure.get('term') or '') > 1500
+    keep = shrinker.MAX_TESTS
+    if wide:
+        shrinker.MAX_TESTS = 40
+    try:
+        out = shrinker.shrink_failure(failure, run_case, same=same_root_cause)
+    finally:
+        shrinker.MAX_TESTS = keep
     if '_term' in out:
         pv = to_numeric(out['_term'], out['_value'], out['_env']) if out.get('numeric') else out['_value']
         if out['kind'] == 'compile-raised-foreign':
